@@ -7,7 +7,7 @@ from fractions import Fraction
 
 import pandas as pd
 
-from .common import close, frac, unq
+from .common import maybe_float, close, frac, unq
 from . import sim  # noqa: F401  (sets sys.path to the repo under test, silences logging)
 
 INSTRS = ("C", "P")
@@ -120,7 +120,7 @@ def pos_diffs(spec_pos, real_pos):
 def trade_call(m, ev):
     """issue the spec's buy/sell event against the real market; returns (orders, fee)."""
     f = m.buy if ev["op"] == "buy" else m.sell
-    amt = dec(ev["amt"])
+    amt = maybe_float(dec(ev["amt"]))          # Decimal | float, as the signatures say
     if ev["mode"] == "mkt":
         return f(ev["i"], amt)
     if ev["mode"] == "lim":
